@@ -67,7 +67,7 @@ def shapely_measures_are_the_area_and_the_length_of_all_rings(S):
     S.ensure("boundary-measure-is-the-length-of-all-rings-including-holes", zreal(vb.at([() for _ in vb.shape])) == lall.t)
 
 
-@scenario("C10", [SB + ".sample_random_uniform", SB + ".sample_grid", SP + "._compute_number_of_points", "torchphysics.problem.domains.domain.Domain.compute_n_from_density"], configs=["random", "grid"])
+@scenario("C10", [SB + ".sample_random_uniform", SB + ".sample_grid", SB + "._compute_number_of_points", "torchphysics.problem.domains.domain.Domain.compute_n_from_density"], configs=["random", "grid"])
 def shapely_boundary_density_sampling_counts_with_the_boundary_measure(S):
     """ShapelyBoundary.sample_*(d=density): the number of points handed to the boundary walk is ceil(density * length of
     all rings) -- the measure of the BOUNDARY, not the area of the polygon (the walk itself, shapely geometry, is used
